@@ -289,6 +289,13 @@ def make_reference(rng, N, acc_noise):
 def build(cfg, ctx, base):
     rng = np.random.default_rng(cfg["ref_seed"])
     ref = make_reference(rng, cfg["N"], cfg["noise"])
+    if cfg.get("int_reference"):
+        # whole-number features held with an integer dtype; later samples are fractional floats
+        a = np.round(ref["a"].to_numpy() * 2).astype(np.int64)
+        ref = pd.DataFrame({"a": a, "b": np.arange(len(ref), dtype=np.int64) * 3 + 1, "y": ((a > 0).astype(int) ^ (rng.random(len(ref)) < cfg["noise"]))})
+    if cfg.get("shuffled_index"):
+        # row labels that are a permutation of 0..N-1 (e.g. after df.sample(frac=1) without reset_index)
+        ref.index = rng.permutation(len(ref))
     det = MD3(clf=ProbeClf(0.0), margin_calculation_function=margin_probe, sensitivity=cfg["sensitivity"], k=cfg["k"],
               oracle_data_length_required=cfg["oracle_len"])
     if cfg["oracle_len"] is None:
@@ -434,7 +441,8 @@ def run_case(case, ctx):
     k = int(rng.choice([2, 3, 5]))
     cfg = dict(N=int(rng.integers(max(4, k), 30)), k=k, oracle_len=(None if rng.random() < 0.25 else int(rng.integers(k, 13))),
                sensitivity=float(rng.choice([0.0, 0.5, 1.0, 2.0, 3.0])),
-               noise=float(rng.choice([0.1, 0.2, 0.35])), ref_seed=int(rng.integers(0, 10 ** 6)))
+               noise=float(rng.choice([0.1, 0.2, 0.35])), ref_seed=int(rng.integers(0, 10 ** 6)),
+               int_reference=bool(rng.random() < 0.2), shuffled_index=bool(rng.random() < 0.3))
     base = dict(cfg=cfg)
     r = build(cfg, ctx, base)
     if r is None:
